@@ -8,6 +8,7 @@ import (
 	"runtime"
 	"strings"
 	"sync"
+	"sync/atomic"
 )
 
 // A Stream is one correspondence protocol: self-contained scenario lines ("ops"), executed on the
@@ -28,6 +29,7 @@ type Result struct {
 	Sample     any
 	Key        string // distinctness key (default: the op line)
 	ModelOp    string // if set, the line given to the model instead of the scenario (e.g. scenario + recorded trace)
+	Abort      bool   // the process state is no longer trustworthy (e.g. hung goroutines): stop after this scenario
 }
 
 var streams = map[string]*Stream{}
@@ -84,13 +86,22 @@ func runStream(s *Stream, args []string) int {
 		workers = 1
 	}
 	var wg sync.WaitGroup
+	var aborted int32
+	executed := make([]bool, len(ops))
 	idx := make(chan int, 1024)
 	for w := 0; w < workers; w++ {
 		wg.Add(1)
 		go func() {
 			defer wg.Done()
 			for i := range idx {
+				if atomic.LoadInt32(&aborted) != 0 {
+					continue
+				}
 				outs[i] = safeExec(s, ops[i], &results[i])
+				executed[i] = true
+				if results[i].Abort {
+					atomic.StoreInt32(&aborted, 1)
+				}
 			}
 		}()
 	}
@@ -99,6 +110,19 @@ func runStream(s *Stream, args []string) int {
 	}
 	close(idx)
 	wg.Wait()
+	if atomic.LoadInt32(&aborted) != 0 {
+		// keep only the executed scenarios
+		var o2, out2 []string
+		var r2 []Result
+		var t2 [][]string
+		for i := range ops {
+			if executed[i] {
+				o2, out2, r2, t2 = append(o2, ops[i]), append(out2, outs[i]), append(r2, results[i]), append(t2, tags[i])
+			}
+		}
+		st.Notes = append(st.Notes, fmt.Sprintf("aborted after %d of %d scenarios (process state no longer trustworthy)", len(o2), len(ops)))
+		ops, outs, results, tags = o2, out2, r2, t2
+	}
 
 	if *c.ops != "" {
 		w, cl := openOut(*c.ops)
